@@ -290,6 +290,69 @@ def choose_focus(spec):
         spec['instr_fn'] = st['fn']
 
 
+def pre_fill(pf):
+    """State-directed ageing: bring containers that outlive a call (paths found by the state fingerprint) to the edge of their
+    capacity before the clients start.  Feeds statements with fresh names / constants (parse, plan, render in turn), single-
+    threaded and without event delivery, and watches len() of the named containers: a drop (cleared when full) or a plateau
+    (eviction) tells the capacity; feeding stops `delta` entries below it (or at the plateau), so that the first few new keys
+    of the simulated clients cross the edge.  Deterministic; the fed statements are not judged (they only age the process)."""
+    from . import state
+    want = set(pf.get('paths') or [])
+    getters = [g for p_, g in state.roots(tuple(resolve_scope(['repo']))) if p_ in want]
+    cats = corpus()['catalogs']
+    cat = sorted(cats)[0]
+    delta = int(pf.get('delta', 0))
+
+    def sizes():
+        out = []
+        for g in getters:
+            try:
+                out.append(len(g()))
+            except Exception:
+                out.append(None)
+        return out
+
+    prev = sizes()
+    cap = [None] * len(prev)
+    still = [0] * len(prev)
+    fed = 0
+    info = {'fed': 0, 'capacity': None, 'final': None}
+    if not any(x is not None for x in prev):
+        return info
+    tag = pf.get('tag', 'q')
+    for i in range(int(pf.get('max_ops', 1200))):
+        k = i % 3
+        if k == 0:
+            op = {'k': 'parse', 'd': 'mindsdb', 'sql': "select z%s%da, z%s%db from zt%d where z%s%dc = 'zv%d' and zd = %d" % (tag, i, tag, i, i, tag, i, i, 100000 + i)}
+        elif k == 1:
+            op = {'k': 'render', 'd': 'mindsdb', 'sql': "select z%s%dr from zt%d where zc = 'zw%d' limit %d" % (tag, i, i, i, 1000 + i), 'rd': 'mysql', 'fb': True}
+        else:
+            op = {'k': 'plan', 'd': 'mindsdb', 'sql': "select z%s%dp from int.zt%d where ze = %d" % (tag, i, i, 200000 + i), 'cat': cat}
+        try:
+            O.run_op(op, O.Env(cats, 'op', 'op'))
+        except BaseException:  # noqa
+            pass
+        fed += 1
+        cur = sizes()
+        done = False
+        for j, (a, b_) in enumerate(zip(prev, cur)):
+            if a is None or b_ is None:
+                continue
+            if b_ < a and cap[j] is None:
+                cap[j] = a                      # cleared / shrunk when full: the size before is the capacity
+            still[j] = still[j] + 1 if b_ == a else 0
+            if cap[j] is None and still[j] >= 40 and b_ > 0 and i >= 60:
+                cap[j] = b_                     # plateau: eviction keeps it at its capacity
+                done = True
+            if cap[j] is not None and b_ >= cap[j] - delta and not (b_ < a):
+                done = True
+        prev = cur
+        if done:
+            break
+    info.update({'fed': fed, 'capacity': [c_ for c_ in cap], 'final': prev})
+    return info
+
+
 def run_sim(spec):
     """One simulated C20 run (S1 with several clients, S2 with one)."""
     from .sched import Sim, Client
@@ -314,6 +377,7 @@ def run_sim(spec):
     # other history
     pre_mism = []
     exp0 = spec.get('expected') or {}
+    fill_info = pre_fill(spec['pre_fill']) if spec.get('pre_fill') else None
     for j, op in enumerate(spec.get('pre') or []):
         try:
             obs = O.run_op(op, envs[j % nclients])
@@ -387,7 +451,7 @@ def run_sim(spec):
     import zlib
     sig = hashlib.sha256(repr(sim.switch_sites).encode() + repr([(c.cid, c.fired) for c in clients]).encode()).hexdigest()[:16]
     return {
-        'results': results, 'mismatches': pre_mism + mism + probe_mism, 'pre_ops': len(spec.get('pre') or []), 'steps': sim.step, 'digest': '%012x' % sim.digest,
+        'results': results, 'mismatches': pre_mism + mism + probe_mism, 'pre_ops': len(spec.get('pre') or []), 'pre_fill': fill_info, 'steps': sim.step, 'digest': '%012x' % sim.digest,
         'nswitch': len(sim.switches), 'switches': sim.switches if spec.get('record', True) else None,
         'finishes': sim.finishes, 'first': sim.first,
         'fired': [[c.cid] + f for c in clients for f in c.fired], 'gc_fired': len(sim.gc_fired), 'gcs_at': sim.gc_fired,
